@@ -181,8 +181,13 @@ void harness (void)
 #ifdef VC_BPP
     VH_ASSUME (Bpp == VC_BPP);           /* case split */
 #endif
-#ifdef VC_WIDTH_MAX
-    VH_ASSUME (in_width <= VC_WIDTH_MAX);
+    /* case split on the width: VC_PATH 0 = up to the largest width that can use the stack buffer
+     * (+ 8 pixels of overlap), 1 = everything above the smallest width that must use the heap
+     * (- 8 pixels of overlap).  The two ranges overlap and cover int32. */
+#if defined(VC_PATH) && VC_PATH == 0
+    VH_ASSUME ((long) in_width * Bpp * 3 <= 3 * SCANLINE_BUFFER_LENGTH + 8 * 16 * 3);
+#elif defined(VC_PATH)
+    VH_ASSUME ((long) in_width * Bpp * 3 >= 3 * SCANLINE_BUFFER_LENGTH - 45 - 8 * 16 * 3);
 #endif
 
     vc_imp.toplevel = &vc_imp;
